@@ -27,7 +27,8 @@ def main(pid):
             seen.add(msg)
             if native is None:
                 try:
-                    native = driver.replay_native('prover', 'prover', ['c11_native.go'], 'VerifHarness_C11_Native', {}, timeout=2400)
+                    d0 = driver.model_draws(r.state, r.info['model']) if r.status == 'assert' else {}
+                    native = driver.replay_native('prover', 'prover', ['c11_native.go'], 'VerifHarness_C11_Native', {k: v for k, v in d0.items() if k in ('depth', 'batch')}, timeout=2400)
                 except Exception as x:  # noqa
                     run.inconclusive.append('native replay failed to run: %r' % (x,))
                     break
